@@ -11,6 +11,11 @@ Decided: the rejecting callback is skipped  ==>  verb == "OPTIONS"  or  path und
 (PKCE on and) path under the directory of the OAuth browser-flow routes; and whenever the callback
 runs, the middleware answers 401 (nothing continues to the resource).
 
+A second item uses path = prefix + "/" + NAME + extra, NAME ranging over the first path segments
+the live routers register (health, _oauth, __introspect_token__ ...) and ".well-known", so that
+method names sharing a textual prefix with a framework endpoint are inside the bound whatever
+their length.
+
 The health route and the OAuth routes are read from the live Falcon router of the same app (the
 uri templates whose responder classes are `_HealthResource` / come from `_oauth_pkce`), not
 copied.
@@ -255,23 +260,7 @@ def _signature(args: dict, conc) -> str:  # noqa: ANN001
     return _sig(cfg, cfg["prefix"] + "/" + args["tail"] + _SUFFIX[args["suffix"]])
 
 
-@cond(
-    q=60,
-    t=300,
-    stubs=["authenticate := records the call, raises PermissionError", "falcon.Request := duck-typed attribute bag"],
-    encoded=[_middleware._AuthMiddleware.process_request, _factory.make_wsgi_app],
-    bound=BOUNDS,
-    replay=_replay,
-    signature=_signature,
-)
-def auth_skipped_only_for_exempt_requests(cfg: int, verb: str, tail: str, suffix: int) -> bool:
-    """
-    pre: 0 <= cfg < _NCFG and 0 <= suffix < _NSUF
-    pre: len(verb) <= _LV and len(tail) <= _LT
-    post: _
-    """
-    c = _GRID[cfg]
-    path = c["prefix"] + "/" + tail + _SUFFIX[suffix]
+def _decide(c: dict, verb: str, path: str) -> bool:
     req = _Req(verb, path)
     _CALLS["n"] = 0
     passed = False
@@ -297,3 +286,59 @@ def auth_skipped_only_for_exempt_requests(cfg: int, verb: str, tail: str, suffix
     if is_open(_sig(c, path)):
         return True
     return False
+
+
+_STUBS = ["authenticate := records the call, raises PermissionError", "falcon.Request := duck-typed attribute bag"]
+
+
+@cond(q=60, t=300, stubs=_STUBS, encoded=[_middleware._AuthMiddleware.process_request, _factory.make_wsgi_app], bound=BOUNDS, replay=_replay, signature=_signature)
+def auth_skipped_only_for_exempt_requests(cfg: int, verb: str, tail: str, suffix: int) -> bool:
+    """
+    pre: 0 <= cfg < _NCFG and 0 <= suffix < _NSUF
+    pre: len(verb) <= _LV and len(tail) <= _LT
+    post: _
+    """
+    c = _GRID[cfg]
+    return _decide(c, verb, c["prefix"] + "/" + tail + _SUFFIX[suffix])
+
+
+def _framework_names() -> list[str]:
+    """First path segment (below the prefix) of every route the live routers register, plus the
+    well-known directory: the names an RPC method could share a textual prefix with."""
+    names = {".well-known"}
+    for c in _GRID:
+        for t, _r in _routes(c["app"]):
+            if t == (c["prefix"] or "/"):
+                continue  # the landing page is the prefix itself
+            rest = t[len(c["prefix"]):] if t.startswith(c["prefix"] + "/") else t
+            seg = rest.lstrip("/").split("/", 1)[0]
+            if seg and "{" not in seg:
+                names.add(seg)
+    return sorted(names)
+
+
+_NAMES = _framework_names()
+_NNAMES = len(_NAMES)
+_LX = pick(3, 5)
+
+
+def _replay_named(args: dict) -> str | None:
+    return _replay({"cfg": args["cfg"], "verb": args["verb"], "tail": _NAMES[args["name"]] + args["extra"], "suffix": args["suffix"]})
+
+
+@cond(q=60, t=300, stubs=_STUBS, encoded=[_middleware._AuthMiddleware.process_request, _factory.make_wsgi_app],
+      bound="12 apps; verb any str len<=%d; path = prefix + '/' + <framework endpoint name from the live router | .well-known> + any str len<=%d + route suffix" % (_LV, _LX),
+      replay=_replay_named,
+      signature=lambda a, conc: _sig(_GRID[a["cfg"]], _GRID[a["cfg"]]["prefix"] + "/" + _NAMES[a["name"]] + a["extra"] + _SUFFIX[a["suffix"]]))
+def names_sharing_a_prefix_with_framework_endpoints(cfg: int, verb: str, name: int, extra: str, suffix: int) -> bool:
+    """
+    pre: 0 <= cfg < _NCFG and 0 <= suffix < _NSUF and 0 <= name < _NNAMES
+    pre: len(verb) <= _LV and len(extra) <= _LX
+    post: _
+    """
+    c = _GRID[cfg]
+    seg = ""
+    for k in range(_NNAMES):
+        if name == k:
+            seg = _NAMES[k]
+    return _decide(c, verb, c["prefix"] + "/" + seg + extra + _SUFFIX[suffix])
